@@ -1,5 +1,6 @@
 mod exchange;
 mod genx;
+mod head;
 mod transport;
 mod util;
 
@@ -59,6 +60,7 @@ fn run_all(kind: &str, input: &str, outdir: &str, threads: usize, budget: Durati
                                 },
                                 _ => exchange::run(&sc),
                             },
+                            "head" => head::expand(&sc, i).iter().flat_map(head::run).collect(),
                             _ => panic!("unknown runner {}", kind),
                         };
                         for e in evs {
@@ -122,7 +124,10 @@ fn main() {
             let out = arg(&args, "--out").expect("--out");
             let seed: u64 = arg(&args, "--seed").and_then(|s| s.parse().ok()).unwrap_or(1);
             let tier = arg(&args, "--tier").unwrap_or("quick".into());
-            let scs = genx::generate(&family, seed, &tier);
+            let scs: Vec<String> = match family.as_str() {
+                "h_large" => head::generate(seed, &tier).into_iter().map(|v| v.to_string()).collect(),
+                _ => genx::generate(&family, seed, &tier),
+            };
             let mut w = BufWriter::new(File::create(&out).unwrap());
             for s in &scs {
                 writeln!(w, "{}", s).unwrap();
